@@ -451,6 +451,10 @@ Section Bullet.
       destruct (htmlblock_start L) as [[? ?]|]; [|discriminate]. destruct (html_loop _ _ _ _). discriminate.
   Qed.
 
+  (* ... and the item loop of the previous sibling asks only for a thematic break at a marker line *)
+  Lemma bline_no_item_interrupt types rest : item_interrupt types (L :: rest) = false.
+  Proof. unfold item_interrupt. rewrite bline_parse_marker, bline_thematic. apply andb_false_r. Qed.
+
   Lemma bline_continuation_low prepend : Z.of_nat k < prepend -> mem 10 body = false -> parse_continuation L prepend = None.
   Proof.
     intros Hp Hb10. unfold L, bline. apply parse_continuation_low; [destruct Hb as [->|[->| ->]]; reflexivity| |exact Hp].
